@@ -673,6 +673,11 @@ func main() {
 	lap("journal_states")
 	r.faithfulStage(cfgs)
 	lap("faithful")
+	// segment boundaries that coincide with sector boundaries: four records of pageSize+8 bytes fill
+	// a whole number of 32-byte sectors, so the second header follows the first segment without padding
+	aligned := collectJournal(rep, "MC_JournalWAL_j_aligned.cfg")
+	r.journalStage(aligned, []Cfg{{PageSize: 512, Sector: 32}, {PageSize: 1024, Sector: 32, BigEnd: true}, {PageSize: 512, Sector: 64}}, true)()
+	lap("journal_states_sector_aligned")
 
 	// ---- 2. WAL ---------------------------------------------------------------------------------
 	wstates := collectWAL(rep, "MC_JournalWAL_w.cfg")
